@@ -131,6 +131,7 @@ def run_check(prop_id: str, tier: str, seed: int, cap_s: float = None) -> int:
     harness_errors = []
     samples = []
     closed = []
+    notes = []
     slowest = 0.0
     cap_hit = False
 
@@ -146,6 +147,9 @@ def run_check(prop_id: str, tier: str, seed: int, cap_s: float = None) -> int:
         slowest = max(slowest, r['_t'])
         if 'closed' in r:
             closed.append(bool(r['closed']))
+        for nt in r.get('notes', []):
+            if len(notes) < 200:
+                notes.append(nt)
         if r.get('harness_error'):
             harness_errors.append({'case': r['_case'], 'error': r['harness_error']})
         for v in r.get('violations', []):
@@ -164,7 +168,9 @@ def run_check(prop_id: str, tier: str, seed: int, cap_s: float = None) -> int:
     else:
         ctx = mp.get_context('fork')
         chunksize = 1 if ncases <= 20000 else max(1, min(64, ncases // (nproc * 8)))
-        with ctx.Pool(nproc) as pool:
+        # chunksize 1 => every case runs in a FRESH fork of this (never-executing) parent: module-level state a
+        # defect may park somewhere cannot leak from one case into the next, so a case is replayable on its own
+        with ctx.Pool(nproc, maxtasksperchild=1 if chunksize == 1 else None) as pool:
             for r in pool.imap_unordered(_worker, order, chunksize=chunksize):
                 consume(r)
                 if cap_s and time.time() - t0 > cap_s:
@@ -250,6 +256,8 @@ def run_check(prop_id: str, tier: str, seed: int, cap_s: float = None) -> int:
     for k, v in extra.items():
         if k not in ('states', 'transitions', 'traces'):
             cov[k] = int(v)
+    if notes:
+        cov['notes'] = sorted(notes)
     if closed:
         cov['closed_scenes'] = sum(closed)
         cov['unclosed_scenes'] = len(closed) - sum(closed)
